@@ -66,6 +66,11 @@ CONSTANTS Frags,            \* fragment files (one per field/view/shard)
           MaxOpN,           \* snapshot threshold
           Kinds,            \* enabled write kinds
           KeyChunks,        \* writes needed for one translate entry
+          CutClasses,       \* where a write boundary can fall in a translate entry (inside a
+                            \* key, between two pairs, after an id varint, after a key-size
+                            \* varint, ...: DurabilityHist.tla BigCuts)
+          UnrecognisedCuts, \* classes at which replayEntries does NOT recognise the partial
+                            \* entry as a torn tail ({} now; hypothetical otherwise)
           TornTailFails, RoaringTwoWrites, RowOpAsync, MultiSeparateWrites,
           SnapTmpTruncated, \* CreateSnapTmp opens <file>.snapshotting with O_TRUNC (os.Create)
           Contentless,
@@ -88,6 +93,7 @@ VARIABLES
     kdisk,    \* complete entries in the translate file
     ktorn,    \* the translate file ends with a partial entry
     kpart,    \* chunks of the entry in progress already written
+    kcut,     \* class of the position at which the partial entry ends ("none": no partial entry)
     mtmp,     \* {"none","created","written"}  the <field>.temp file
     infl,     \* the write in flight: NoWrite or [kind, frags, budget, meta, phase]
     done,     \* [Frags -> Nat]           entries appended by the write in flight
@@ -102,7 +108,7 @@ VARIABLES
     reck      \* translate entries the last restart read
 
 fvars == <<mem, snap, log, torn, tmp, tmpc, opn, sq>>
-kvars == <<kdisk, ktorn, kpart>>
+kvars == <<kdisk, ktorn, kpart, kcut>>
 wvars == <<infl, done, hdr, rowed>>
 gvars == <<acked, goal, akeys, gkeys>>
 vars  == <<fvars, kvars, mtmp, wvars, gvars, nw, pc, rec, reck>>
@@ -117,13 +123,13 @@ ApplyLog(s, l) == IF l = << >> THEN s ELSE ApplyLog((s \cup Head(l).add) \ Head(
 
 Parse(f)    == ApplyLog(snap[f], log[f])          \* complete entries; .snapshotting is never read
 ParseOK(f)  == ~(torn[f] /\ TornTailFails)
-KParseOK    == ~(ktorn /\ TornTailFails)
+KParseOK    == ~(ktorn /\ (TornTailFails \/ kcut \in UnrecognisedCuts))
 
 Init ==
     /\ mem = [f \in Frags |-> {}] /\ snap = [f \in Frags |-> {}] /\ log = [f \in Frags |-> << >>]
     /\ torn = [f \in Frags |-> FALSE] /\ tmp = [f \in Frags |-> "none"] /\ tmpc = [f \in Frags |-> {}]
     /\ opn = [f \in Frags |-> 0] /\ sq = [f \in Frags |-> "idle"]
-    /\ kdisk = 0 /\ ktorn = FALSE /\ kpart = 0 /\ mtmp = "none"
+    /\ kdisk = 0 /\ ktorn = FALSE /\ kpart = 0 /\ kcut = "none" /\ mtmp = "none"
     /\ infl = NoWrite /\ done = [f \in Frags |-> 0] /\ hdr = [f \in Frags |-> FALSE] /\ rowed = {}
     /\ acked = [f \in Frags |-> {}] /\ goal = [f \in Frags |-> {}] /\ akeys = 0 /\ gkeys = 0
     /\ nw = 0 /\ pc = "run" /\ rec = [f \in Frags |-> {}] /\ reck = 0
@@ -248,9 +254,9 @@ TranslateWrite ==
     /\ pc = "run" /\ Active /\ infl.phase = "translate"
     /\ Contentless \/ kpart < KeyChunks
     /\ kpart' = Min(kpart + 1, KeyChunks)
-    /\ IF Contentless THEN UNCHANGED <<kdisk, ktorn>>
-       ELSE IF kpart' = KeyChunks THEN kdisk' = kdisk + 1 /\ ktorn' = FALSE
-            ELSE ktorn' = TRUE /\ UNCHANGED kdisk
+    /\ IF Contentless THEN UNCHANGED <<kdisk, ktorn, kcut>>
+       ELSE IF kpart' = KeyChunks THEN kdisk' = kdisk + 1 /\ ktorn' = FALSE /\ kcut' = "none"
+            ELSE ktorn' = TRUE /\ kcut' \in CutClasses /\ UNCHANGED kdisk   \* the chunk ends at any class of position
     /\ UNCHANGED <<fvars, mtmp, wvars, gvars, nw, pc, rec, reck>>
 TranslateSync ==
     /\ pc = "run" /\ Active /\ infl.phase = "translate"
@@ -258,7 +264,7 @@ TranslateSync ==
     /\ kpart' = 0
     /\ \E p \in (IF Contentless THEN {"translate", "data"} ELSE {"data"}) :
           infl' = [infl EXCEPT !.phase = p]
-    /\ UNCHANGED <<fvars, kdisk, ktorn, mtmp, done, hdr, rowed, gvars, nw, pc, rec, reck>>
+    /\ UNCHANGED <<fvars, kdisk, ktorn, kcut, mtmp, done, hdr, rowed, gvars, nw, pc, rec, reck>>
 
 \* the acknowledgement
 Ack ==
@@ -315,7 +321,7 @@ Recover ==
        THEN /\ pc' = "run"
             /\ rec' = [f \in Frags |-> Parse(f)] /\ reck' = kdisk
             /\ mem' = [f \in Frags |-> Parse(f)]
-            /\ torn' = [f \in Frags |-> FALSE] /\ ktorn' = FALSE /\ kpart' = 0
+            /\ torn' = [f \in Frags |-> FALSE] /\ ktorn' = FALSE /\ kpart' = 0 /\ kcut' = "none"
             /\ opn' = [f \in Frags |-> Min(Len(log[f]), MaxOpN + 1)]
             /\ sq' = [f \in Frags |-> "idle"]
             /\ infl' = NoWrite /\ done' = [f \in Frags |-> 0] /\ hdr' = [f \in Frags |-> FALSE] /\ rowed' = {}
@@ -365,7 +371,7 @@ TypeOK ==
     /\ mem \in [Frags -> SUBSET Bits] /\ snap \in [Frags -> SUBSET Bits]
     /\ torn \in [Frags -> BOOLEAN] /\ tmp \in [Frags -> {"none", "partial", "full"}]
     /\ opn \in [Frags -> 0..(MaxOpN + 1)] /\ sq \in [Frags -> {"idle", "maybe", "queued", "created", "written"}]
-    /\ kpart \in 0..KeyChunks /\ mtmp \in {"none", "created", "written"}
+    /\ kpart \in 0..KeyChunks /\ kcut \in CutClasses \cup {"none"} /\ mtmp \in {"none", "created", "written"}
     /\ pc \in {"run", "crashed", "failed"} /\ nw \in 0..MaxWrites
 
 \* ---- refinement: every behaviour is a behaviour of the property machine ----------------
